@@ -16,7 +16,7 @@ import (
 func init() { verifChecks["C06"] = runC06 }
 
 var c06Schemas = map[string][]mCol{
-	"t": {{"k", "int"}, {"p", "int"}},
+	"t": {{"k", "int"}, {"p", "int"}, {"s", "varchar"}}, // three columns: row slices with spare capacity
 	"u": {{"k", "int"}, {"q", "int"}},
 	"v": {{"k", "int"}, {"r", "varchar"}},
 }
@@ -28,11 +28,17 @@ func c06Contents(table string) [][][]any {
 		}
 		return int64(10*(i+1) + map[string]int{"t": 0, "u": 100}[table])
 	}
+	row := func(k int64, i int) []any {
+		if table == "t" {
+			return []any{k, tag(i), fmt.Sprintf("s%d", i)}
+		}
+		return []any{k, tag(i)}
+	}
 	out := [][][]any{{}}
 	for _, k1 := range []int64{1, 2} {
-		out = append(out, [][]any{{k1, tag(0)}})
+		out = append(out, [][]any{row(k1, 0)})
 		for _, k2 := range []int64{1, 2} {
-			out = append(out, [][]any{{k1, tag(0)}, {k2, tag(1)}})
+			out = append(out, [][]any{row(k1, 0), row(k2, 1)})
 		}
 	}
 	return out
